@@ -43,6 +43,9 @@ type gen struct {
 	dist        map[string]int
 }
 
+// focus biases the op mix towards one mechanism (empty: the general mix)
+var focus string
+
 var qnames = []string{"q1", "q2", "q3", "qa.b", "q_x"}
 var xnames = []string{"x1", "x2", "x3"}
 var keys = []string{"k1", "k2", "a.b", "a.b.c", "a", "b"}
@@ -345,6 +348,14 @@ func (g *gen) stepRandom() {
 	}
 	key := [2]int{c, h}
 	k := g.r.Intn(1000)
+	if focus == "flow" && g.r.Chance(3, 5) {
+		// the delivery loop: publish, consume, settle, windows, flow, cancel
+		k = []int{200, 200, 200, 480, 480, 700, 700, 700, 810, 845, 570, 600}[g.r.Intn(12)]
+	}
+	if focus == "confirm" && g.r.Chance(3, 5) {
+		// publishes on confirm channels, durable queues, channel reuse
+		k = []int{200, 200, 200, 200, 870, 870, 10, 130, 945, 945, 480, 700}[g.r.Intn(12)]
+	}
 	if len(g.queues(sn)) == 0 && g.r.Chance(4, 5) {
 		k = 0 // nothing to work with yet: declare a queue
 	}
